@@ -96,8 +96,14 @@ class DBusClientConnection (txdbus.protocol.BasicDBusProtocol):
         """
         Called when the transport loses connection to the bus
         """
-        if self.busName is None:
+        if not self._authenticated:
+            # Lost during authentication: nothing has been set up yet but the
+            # Deferred returned by the factory must not be left hanging
+            self.factory._failed(reason)
             return
+
+        # If the reply to Hello is still outstanding, failing the pending calls
+        # below errbacks the factory's Deferred
 
         for cb in self._dcCallbacks:
             cb(self, reason)
